@@ -668,7 +668,7 @@ impl TypeSpace {
                         ) => metadata
                             .title
                             .clone()
-                            .map_or(Name::Unknown, Name::Suggested),
+                            .map_or(Name::Unknown, Name::Required),
                         (RefKey::Root, _) => Name::Unknown,
                     };
                     self.convert_ref_type(type_name, schema, type_id)?
